@@ -374,6 +374,12 @@ def exec_ni_history(hist, rp):
             if ref_exc == type(ex).__name__ and isinstance(ex, RuntimeError) and "exponent is too large" in str(ex):
                 stats["rejected_by_fresh_objects_too"] += 1
                 break
+            # forces are documented as unsupported for some feature families: the same
+            # NotImplementedError from fresh objects is a rejection; the history goes on
+            # with the same object (a rejected request must not damage it)
+            if c == "grad" and isinstance(ex, NotImplementedError) and ref_exc == "NotImplementedError":
+                stats["grad_not_implemented_on_both"] += 1
+                continue
             V("call-raises:%s:%s:%s" % ("nr_uks" if uks else "nr_rks", type(ex).__name__, tb[-1].name if tb else "?"), "step %d: %s" % (step, str(ex)[:200]))
             break
         after = adigest(*(arg if isinstance(arg, (list, tuple)) else [arg]), g.coords, g.weights, mol._atm, mol._bas, mol._env)
@@ -436,6 +442,23 @@ def gen_gen_history(seed):
     from cidersim.workloads import omp_workloads as W
 
     rng = Rng(derive("c09-gen", seed))
+    if rng.chance(0.15):
+        # descriptor-generation generator ("train_gen" interpolator): output coordinates are
+        # re-targeted between calls; features with occupation derivatives
+        p = W.draw_nldf_params(rng)
+        p["nspin"] = 1
+        p["interp"] = "train_gen"
+        p["mol"] = rng.choice(["He", "H2", "LiH"])
+        ops = []
+        for _ in range(rng.randint(3, 8)):
+            c = rng.weighted([("setc", 3), ("occd", 5), ("feat", 2)])
+            if c == "setc":
+                ops.append({"op": "setc", "spin": 0, "c": rng.below(3)})
+            elif c == "occd":
+                ops.append({"op": "occd", "spin": 0, "rho": rng.below(3), "norb": rng.choice([0, 1, 2, 3]), "same_out": bool(rng.chance(0.3)), "alias": rng.choice([None, None, "readonly"])})
+            else:
+                ops.append({"op": "tfeat", "spin": 0, "rho": rng.below(3)})
+        return {"kind": "tgen", "params": p, "ops": ops, "perturb": rng.choice(PERTURBS)}
     if rng.chance(0.7):
         p = W.draw_nldf_params(rng)
         p["nspin"] = rng.choice([1, 2, 2])
@@ -449,7 +472,10 @@ def gen_gen_history(seed):
             if s in have and rng.chance(0.5):
                 ops.append({"op": "pot", "spin": s, "v": rng.below(npool), "alias": rng.choice([None, None, "readonly"])})
             else:
-                ops.append({"op": "feat", "spin": s, "rho": rng.below(npool), "alias": rng.choice([None, None, "readonly", "view"])})
+                # mode: "plain" = sorted-grid layout (energy path); "nomap" / "grad" = atomic-grid
+                # layout without / with the force intermediates (what the gradient code calls on
+                # the calculator's generator between energy evaluations)
+                ops.append({"op": "feat", "spin": s, "rho": rng.below(npool), "alias": rng.choice([None, None, "readonly", "view"]), "mode": rng.weighted([("plain", 6), ("nomap", 2), ("grad", 2)])})
                 have.add(s)
         return {"kind": "nldfgen", "params": p, "ops": ops, "perturb": rng.choice(PERTURBS)}
     p = W.draw_sdmx_params(rng)
@@ -481,31 +507,49 @@ def exec_nldfgen_history(hist, rp):
         r[0, : min(5, ng)] = 1e-12  # below rhocut: exercises the cutoff branches
     nfeat = st.nldf_settings.nfeat
     vs = [nprng.normal(size=(nfeat, ng)) for _ in range(3)]
+    # atomic-grid layout (map_grids=False): densities on all ngrids_ato points, potentials on
+    # the sorted grid incl. padding
+    ng_ato = grids.grids_indexer.ngrids
+    ng_pad = grids.grids_indexer.idx_map.size + grids.grids_indexer.padding
+    nprng2 = np.random.default_rng(p["dseed"] + 1)
+    rhos_ato = [W._rho_data(nprng2, nrho, ng_ato) for _ in range(3)]
+    vs_pad = [nprng2.normal(size=(nfeat, ng_pad)) for _ in range(3)]
     fresh = {}
+    KW = {"plain": {}, "nomap": {"map_grids": False}, "grad": {"map_grids": False, "grad_mode": True}}
 
     def fresh_gen():
         set_perturb(hist["perturb"] ^ 0x5A)
         g = W._make_nldfgen(p)[3]
         return g
 
-    def ref_feat(i, s):
-        if ("f", i, s) not in fresh:
-            g = fresh_gen()
-            fresh[("f", i, s)] = np.array(g.get_features(rhos[i].copy(), spin=s), copy=True)
-            set_perturb(hist["perturb"])
-            stats["reference_calls"] += 1
-        return fresh[("f", i, s)]
+    def rho_of(i, mode):
+        return rhos[i] if mode == "plain" else rhos_ato[i]
 
-    def ref_pot(i, j, s):
-        if ("p", i, j, s) not in fresh:
+    def v_of(j, mode):
+        return vs[j] if mode == "plain" else vs_pad[j]
+
+    def as_list(x):
+        return [np.array(y, copy=True) for y in x] if isinstance(x, tuple) else [np.array(x, copy=True)]
+
+    def ref_feat(i, s, mode="plain"):
+        if ("f", i, s, mode) not in fresh:
             g = fresh_gen()
-            g.get_features(rhos[i].copy(), spin=s)
-            fresh[("p", i, j, s)] = np.array(g.get_potential(vs[j].copy(), spin=s), copy=True)
+            fresh[("f", i, s, mode)] = np.array(g.get_features(rho_of(i, mode).copy(), spin=s, **KW[mode]), copy=True)
             set_perturb(hist["perturb"])
             stats["reference_calls"] += 1
-        return fresh[("p", i, j, s)]
+        return fresh[("f", i, s, mode)]
+
+    def ref_pot(i, j, s, mode="plain"):
+        if ("p", i, j, s, mode) not in fresh:
+            g = fresh_gen()
+            g.get_features(rho_of(i, mode).copy(), spin=s, **KW[mode])
+            fresh[("p", i, j, s, mode)] = as_list(g.get_potential(v_of(j, mode).copy(), spin=s, **KW[mode]))
+            set_perturb(hist["perturb"])
+            stats["reference_calls"] += 1
+        return fresh[("p", i, j, s, mode)]
 
     last_rho = {}
+    last_mode = {}
     held = []  # (label, returned array object, copy at return time)
 
     def check_held(step):
@@ -520,51 +564,145 @@ def exec_nldfgen_history(hist, rp):
         s = op["spin"]
         check_held(step)
         if op["op"] == "feat":
-            arr = rhos[op["rho"]].copy()
+            mode = op.get("mode", "plain")
+            stats["feat_mode_" + mode] += 1
+            nrow, ncol = rho_of(op["rho"], mode).shape
+            arr = rho_of(op["rho"], mode).copy()
             if op["alias"] == "readonly":
                 arr.setflags(write=False)
             elif op["alias"] == "view":
-                big = np.zeros((nrho + 2, ng))
-                big[1 : nrho + 1] = arr
-                arr = big[1 : nrho + 1]
+                big = np.zeros((nrow + 2, ncol))
+                big[1 : nrow + 1] = arr
+                arr = big[1 : nrow + 1]
             b = adigest(arr)
             try:
-                f = gen.get_features(arr, spin=s)
+                f = gen.get_features(arr, spin=s, **KW[mode])
             except Exception as ex:
-                V("call-raises:LCAONLDFGenerator.get_features:%s:%s" % (type(ex).__name__, op["alias"]), "step %d: %s" % (step, str(ex)[:200]))
+                V("call-raises:LCAONLDFGenerator.get_features:%s:%s" % (type(ex).__name__, op["alias"]), "step %d (%s): %s" % (step, mode, str(ex)[:200]))
                 break
             if adigest(arr) != b:
-                V("input-mutated:LCAONLDFGenerator.get_features:rho", "step %d: rho_in changed (max |delta| %.3g)" % (step, float(np.abs(np.asarray(arr) - rhos[op["rho"]]).max())))
+                V("input-mutated:LCAONLDFGenerator.get_features:rho", "step %d: rho_in changed (max |delta| %.3g)" % (step, float(np.abs(np.asarray(arr) - rho_of(op["rho"], mode)).max())))
             held.append(("get_features", f, np.array(f, copy=True)))
-            ok, why = close(f, ref_feat(op["rho"], s))
+            ok, why = close(f, ref_feat(op["rho"], s, mode))
             stats["comparisons"] += 1
             if not ok:
-                V("history_vs_fresh:LCAONLDFGenerator.get_features:feat:spin%d" % s, "step %d: %s" % (step, why))
+                V("history_vs_fresh:LCAONLDFGenerator.get_features:feat:spin%d" % s + ("" if mode == "plain" else ":" + mode), "step %d: %s" % (step, why))
             last_rho[s] = op["rho"]
+            last_mode[s] = mode
             if len(last_rho) > 1:
                 stats["spin_interleavings"] += 1
         else:
             if s not in last_rho:
                 continue
-            arr = vs[op["v"]].copy()
+            mode = last_mode[s]
+            arr = v_of(op["v"], mode).copy()
             if op["alias"] == "readonly":
                 arr.setflags(write=False)
             b = adigest(arr)
             try:
-                pot = gen.get_potential(arr, spin=s)
+                pot = gen.get_potential(arr, spin=s, **KW[mode])
             except Exception as ex:
-                V("call-raises:LCAONLDFGenerator.get_potential:%s:%s" % (type(ex).__name__, op["alias"]), "step %d: %s" % (step, str(ex)[:200]))
+                V("call-raises:LCAONLDFGenerator.get_potential:%s:%s" % (type(ex).__name__, op["alias"]), "step %d (%s): %s" % (step, mode, str(ex)[:200]))
                 break
             if adigest(arr) != b:
                 V("input-mutated:LCAONLDFGenerator.get_potential:vfeat", "step %d: vfeat changed by the call (nspin=%d)" % (step, p["nspin"]))
-            held.append(("get_potential", pot, np.array(pot, copy=True)))
-            ok, why = close(pot, ref_pot(last_rho[s], op["v"], s))
-            stats["comparisons"] += 1
+            pots = list(pot) if isinstance(pot, tuple) else [pot]
+            refs = ref_pot(last_rho[s], op["v"], s, mode)
+            for k, (pk, rk) in enumerate(zip(pots, refs)):
+                held.append(("get_potential", pk, np.array(pk, copy=True)))
+                ok, why = close(pk, rk)
+                stats["comparisons"] += 1
+                if not ok:
+                    V("history_vs_fresh:LCAONLDFGenerator.get_potential:%s:spin%d" % (["vrho", "cidergg", "excsum"][k], s) + ("" if mode == "plain" else ":" + mode), "step %d: %s" % (step, why))
             stats["potential_calls"] += 1
-            if not ok:
-                V("history_vs_fresh:LCAONLDFGenerator.get_potential:vrho:spin%d" % s, "step %d: %s" % (step, why))
     check_held(len(hist["ops"]))
     stats["held_results_rechecked"] += len(held)
+    return viol, stats, dg
+
+
+def exec_tgen_history(hist, rp):
+    """descriptor-generation generator: set_coords to other point sets, features with
+    occupation derivatives, plain features, in any order, vs a fresh generator"""
+    from cidersim.workloads import omp_workloads as W
+
+    p = hist["params"]
+    viol = []
+    stats = Counter()
+    dg = Digest()
+
+    def V(key, detail):
+        viol.append({"key": key, "detail": detail, "replay": rp})
+
+    set_perturb(hist["perturb"])
+    st, mol, grids, gen = W._make_nldfgen(p)
+    nrho = 5 if st.sl_settings.level == "MGGA" else 4
+    ng = grids.weights.size
+    r = np.random.default_rng(p["dseed"])
+    rhos = [W._rho_data(r, nrho, ng) for _ in range(3)]
+    orbs = [np.stack([W._rho_data(r, nrho, ng, scale=0.3) for _ in range(3)]) for _ in range(3)]
+    csets = [np.ascontiguousarray(r.normal(size=(n, 3)) * 1.2) for n in (7, 40, 131)]
+    prhos = [[W._rho_data(r, nrho, c.shape[0]) for c in csets] for _ in range(3)]
+    porbs = [[np.stack([W._rho_data(r, nrho, c.shape[0], scale=0.3) for _ in range(3)]) for c in csets] for _ in range(3)]
+    cur = None  # index into csets, or "grid"
+
+    def point(g, c):
+        g.interpolator.set_coords(grids.coords if c == "grid" else csets[c])
+
+    def call(g, op, c):
+        if op["op"] == "tfeat":
+            a = rhos[op["rho"]].copy()
+            return [np.array(g.get_features(a, spin=0), copy=True)], [(a, rhos[op["rho"]])]
+        i, n = op["rho"], op["norb"]
+        a, b = rhos[i].copy(), orbs[i][:n].copy()
+        if op.get("alias") == "readonly":
+            a.setflags(write=False)
+            b.setflags(write=False)
+        if op["same_out"] or c == "grid":
+            f, d = g.get_features_and_occ_derivs(a, b)
+            ins = [(a, rhos[i]), (b, orbs[i][:n])]
+        else:
+            pa, pb = prhos[i][c].copy(), porbs[i][c][:n].copy()
+            f, d = g.get_features_and_occ_derivs(a, b, pa, pb)
+            ins = [(a, rhos[i]), (b, orbs[i][:n]), (pa, prhos[i][c]), (pb, porbs[i][c][:n])]
+        return [np.array(f, copy=True)] + ([] if d is None else [np.array(d, copy=True)]), ins
+
+    for step, op in enumerate(hist["ops"]):
+        stats["op_" + op["op"]] += 1
+        dg.add(op["op"])
+        try:
+            if op["op"] == "setc":
+                cur = op["c"]
+                point(gen, cur)
+                stats["coordinate_retargets"] += 1
+                continue
+            if op["op"] == "tfeat" or op.get("same_out"):
+                # features on the generator's own grid need the interpolator pointed at it
+                cur = "grid"
+                point(gen, cur)
+            elif cur is None or cur == "grid":
+                cur = 0
+                point(gen, cur)
+            got, ins = call(gen, op, cur)
+        except Exception as ex:
+            V("call-raises:LCAONLDFGenerator.%s:%s" % (op["op"], type(ex).__name__), "step %d: %s" % (step, str(ex)[:200]))
+            break
+        for a, orig in ins:
+            if not np.array_equal(a, orig):
+                V("input-mutated:LCAONLDFGenerator.get_features_and_occ_derivs", "step %d" % step)
+        set_perturb(hist["perturb"] ^ 0x5A)
+        g2 = W._make_nldfgen(p)[3]
+        point(g2, cur)
+        ref, _ = call(g2, op, cur)
+        set_perturb(hist["perturb"])
+        stats["reference_calls"] += 1
+        if len(ref) != len(got):
+            V("history_vs_fresh:LCAONLDFGenerator.%s:arity" % op["op"], "step %d" % step)
+            continue
+        for k, (x, y) in enumerate(zip(got, ref)):
+            ok, why = close(x, y)
+            stats["comparisons"] += 1
+            if not ok:
+                V("history_vs_fresh:LCAONLDFGenerator.%s:%s" % (op["op"], ["feat", "occd"][k]), "step %d (coords %s): %s" % (step, cur, why))
     return viol, stats, dg
 
 
@@ -662,7 +800,7 @@ def gen_ks_history(seed):
     ops = []
     cur = 0
     for _ in range(rng.randint(3, 7)):
-        c = rng.weighted([("veff", 5), ("scf", 2), ("reset", 4), ("level", 1), ("displace", 2)])
+        c = rng.weighted([("veff", 5), ("scf", 2), ("reset", 4), ("level", 1), ("displace", 2), ("grad", 2)])
         if c == "displace":
             # geometry step of a scan: the SAME Mole object is moved in place, then reset(mol)
             ops.append({"op": "displace", "delta": [[rng.uniform(-0.25, 0.25) for _ in range(3)] for _ in range(4)]})
@@ -673,6 +811,10 @@ def gen_ks_history(seed):
             ops.append({"op": "level", "level": rng.choice([0, 1])})
         elif c == "veff":
             ops.append({"op": "veff", "dm": rng.below(3)})
+        elif c == "grad":
+            # geometry optimisation: an SCF run followed by analytic forces on the same
+            # object; the force code shares the calculator's feature generators
+            ops.append({"op": "grad", "cycles": 1, "dm": rng.below(3), "grid_response": bool(rng.chance(0.4))})
         else:
             ops.append({"op": "scf", "cycles": rng.choice([1, 2]), "dm": rng.below(3)})
     return {"kind": "ks", "models": [model], "mols": mols, "grids": [{"level": 0}], "uks": uks, "ops": ops, "perturb": rng.choice(PERTURBS)}
@@ -711,6 +853,12 @@ def exec_ks_history(hist, rp):
             return {"veff": np.array(v, copy=True), "exc": float(v.exc), "ecoul": float(v.ecoul)}, adigest(dm) == b
         dm0 = np.array(U.dm(k, 2 if uks else 1, op.get("dm", 0)), copy=True)
         e, dm = scf_run(ks, op["cycles"], dm0)
+        if op["op"] == "grad":
+            g = ks.nuc_grad_method()
+            g.verbose = 0
+            g.grid_response = bool(op.get("grid_response"))
+            de = np.array(g.kernel(), copy=True)
+            return {"e_tot": e, "dm": dm, "de": de}, True
         return {"e_tot": e, "dm": dm}, True
 
     set_perturb(hist["perturb"])
@@ -754,7 +902,7 @@ def exec_ks_history(hist, rp):
             tb = traceback.extract_tb(ex.__traceback__)
             # a request that fresh objects reject in the same way is not a history effect
             ref_exc = None
-            if c in ("veff", "scf"):
+            if c in ("veff", "scf", "grad"):
                 try:
                     set_perturb(hist["perturb"] ^ 0x5A)
                     mol_f = U.mol(cur, fresh=True)
@@ -769,6 +917,12 @@ def exec_ks_history(hist, rp):
             if ref_exc == type(ex).__name__ and isinstance(ex, RuntimeError) and "exponent is too large" in str(ex):
                 stats["rejected_by_fresh_objects_too"] += 1
                 break
+            # forces are documented as unsupported for some feature families: the same
+            # NotImplementedError from fresh objects is a rejection; the history goes on
+            # with the same object (a rejected request must not damage it)
+            if c == "grad" and isinstance(ex, NotImplementedError) and ref_exc == "NotImplementedError":
+                stats["grad_not_implemented_on_both"] += 1
+                continue
             V("call-raises:ks.%s:%s:%s" % (c, type(ex).__name__, tb[-1].name if tb else "?"), "step %d: %s" % (step, str(ex)[:200]))
             break
         if not inputs_ok:
@@ -782,7 +936,7 @@ def exec_ks_history(hist, rp):
         set_perturb(hist["perturb"])
         stats["reference_calls"] += 1
         for name in sorted(ref):
-            ok, why = close(got[name], ref[name], 1e-9 if c == "scf" else RTOL)
+            ok, why = close(got[name], ref[name], 1e-9 if c in ("scf", "grad") else RTOL)
             stats["comparisons"] += 1
             if not ok:
                 V("history_vs_fresh:ks.%s:%s:%s" % (c, name, site), "step %d (%s, mol %s after %s): %s" % (step, mdesc["settings"], hist["mols"][cur]["name"], [o["op"] for o in hist["ops"][:step]][-4:], why))
@@ -1084,7 +1238,7 @@ def exec_eval_history(hist, rp):
 
 
 # ---------------------------------------------------------------------------------
-EXEC = {"ni": exec_ni_history, "nldfgen": exec_nldfgen_history, "sdmxgen": exec_sdmxgen_history, "eval": exec_eval_history, "plan": exec_plan_history, "ks": exec_ks_history, "slplan": exec_slplan_history}
+EXEC = {"tgen": exec_tgen_history, "ni": exec_ni_history, "nldfgen": exec_nldfgen_history, "sdmxgen": exec_sdmxgen_history, "eval": exec_eval_history, "plan": exec_plan_history, "ks": exec_ks_history, "slplan": exec_slplan_history}
 
 
 def gen_history(kind, seed):
@@ -1168,6 +1322,28 @@ def replay(rp):
     return run_case(rp["case"])
 
 
+def on_crash(spec, status):
+    """the interpreter died (SIGSEGV/SIGBUS/SIGABRT/...) in the middle of a generated history:
+    every request of a history is valid and is answered by fresh objects, so a call sequence
+    that takes the process down gives "not the same answer as fresh objects".  Reported only
+    if the first operation alone (fresh objects, no history yet) survives; watchdog and
+    out-of-memory kills stay harness errors."""
+    from cidersim.driver import fatal_signal, run_pool
+
+    sig = fatal_signal(status)
+    if sig is None:
+        return None
+    hist = spec.get("hist") or gen_history(spec["hkind"], spec["seed"])
+    if len(hist.get("ops", [])) > 1:
+        first = dict(spec, hist=dict(hist, ops=hist["ops"][:1]))
+        r = run_pool([first], run_case, nproc=1, case_timeout=CASE_TIMEOUT)[0]
+        if r is None or "crashed" in r or "harness_error" in r:
+            return None
+    key = "history-crash:%s:signal%d:crash" % (hist["kind"], sig)
+    rp = {"property": PROP, "engine": "histsim", "case": {"hist": hist, "hkind": spec.get("hkind"), "seed": spec.get("seed")}, "violation": {"key": key}}
+    return {"key": key, "detail": "worker killed by signal %d while executing a %s history of %d operations" % (sig, hist["kind"], len(hist.get("ops", []))), "replay": rp}
+
+
 def minimise(v):
     from cidersim.driver import run_pool
 
@@ -1177,6 +1353,8 @@ def minimise(v):
 
     def fails(h):
         r = run_pool([{"hist": h}], run_case, nproc=1, case_timeout=900)[0]
+        if key.endswith(":crash"):
+            return bool(r) and "crashed" in r
         return bool(r) and "violations" in r and any(x["key"] == key for x in r["violations"])
 
     ops = list(hist["ops"])
